@@ -13,11 +13,12 @@ VERIF = extract.VERIF
 
 
 class Violation:
-    def __init__(self, key, msg, where=None, witness=None):
+    def __init__(self, key, msg, where=None, witness=None, members=None):
         self.key = key          # position-free identity of the violation
         self.msg = msg
         self.where = where or []
         self.witness = witness or {}
+        self.members = members  # optional set of sub-instances (e.g. operations) the violation covers
 
 
 class Res:
@@ -32,8 +33,8 @@ class Res:
         self.sites.append(s)
         return self
 
-    def bad(self, subkey, msg, where=None, witness=None):
-        self.violations.append(Violation(subkey, msg, where, witness))
+    def bad(self, subkey, msg, where=None, witness=None, members=None):
+        self.violations.append(Violation(subkey, msg, where, witness, members))
         return self
 
 
@@ -133,14 +134,33 @@ def finish(ctx, level, explanation, assumptions, technique, extra_cov=None, seed
     for full, lst in sorted(by_key.items()):
         v, inst = lst[0]
         cfgs = sorted(set(i['config'] for _, i in lst))
-        if full in kmap:
-            known_hit[full] = (v, cfgs)
-            for _, i in lst:
-                i['verdict'] = 'known-finding'
-            continue
+        kf = kmap.get(full)
+        if kf is not None:
+            # a grouped finding (one key, several operations): known only if every operation it covers is listed
+            allm = set()
+            for vv, _ in lst:
+                allm |= set(vv.members or ())
+            extra = sorted(allm - set(kf.get('members', []))) if (allm or kf.get('members')) else []
+            if not extra:
+                known_hit[full] = (v, cfgs)
+                for _, i in lst:
+                    i['verdict'] = 'known-finding'
+                continue
+            v.msg += ' -- NEW operation(s) not covered by the known finding: ' + ', '.join(extra)
         viol.append((full, v, cfgs, inst))
     for full, (v, cfgs) in sorted(known_hit.items()):
         print('KNOWN-FINDING: property=%s %s [%s] (configs %s)' % (ctx.prop, kmap[full].get('what', v.msg), full, ','.join(cfgs)))
+    dump = os.environ.get('VERIF_DUMP_FINDINGS')
+    if dump:
+        allf = []
+        for full, lst in sorted(by_key.items()):
+            mem = set()
+            for vv, _ in lst:
+                mem |= set(vv.members or ())
+            allf.append({'property': ctx.prop, 'key': full, 'members': sorted(mem), 'configs': sorted(set(i['config'] for _, i in lst)),
+                         'message': lst[0][0].msg[:300]})
+        with open(dump, 'w') as fh:
+            json.dump(allf, fh, indent=1)
     n = 0
     for full, v, cfgs, inst in viol:
         n += 1
